@@ -2,8 +2,8 @@
 // include path).  The call histories are the same as in the tbb engine; after every
 // set_global_tbb_concurrency(n) the real tbb::global_control::active_value is read back.  No
 // thread scheduling is involved in that read-back, so the run is deterministic; the number of
-// distinct threads seen in a parallel_for afterwards is checked one-sidedly (<= n) and kept out of
-// the event log.  This guards the shadow's model of global_control (DESIGN §5 C20).
+// distinct threads seen in a parallel_for afterwards is recorded as information only (real threads
+// are not under the simulator's control) and kept out of the event log.  This guards the shadow's model of global_control (DESIGN §5 C20).
 #include <atomic>
 #include <mutex>
 #include <set>
@@ -47,7 +47,9 @@ public:
                     std::lock_guard<std::mutex> g(m); ids.insert(std::this_thread::get_id());
                 });
                 r.fired["thread_probe"]++;
-                if (ids.size() > n) { r.fail("region_limit", "real TBB: " + std::to_string(ids.size()) + " threads executed a parallel_for under limit " + std::to_string(n)); return; }
+                // observation of real threads: informational only.  Right after the limit was lowered oneTBB may still
+                // have workers of the previous, larger limit in flight, so this is no deterministic oracle.
+                if (ids.size() > n) r.fired["thread_probe_above_limit"]++;
             }
         }
         r.nontrivial = distinct >= 2;
